@@ -475,19 +475,31 @@ theorem avoidFlush_array_case_needed :
     (runNarrow {} (ops.map (fun o => (o, ⟨true, .ok⟩)))).total = [0x7b, 0x22, 0x61, 0x22, 0x3a, 0x5b, 0x5d, 0x7d, 0x0a] ∧
     (run {} (ops.map (fun o => (o, ⟨true, .ok⟩)))).total = [0x7b, 0x7d, 0x0a] := by decide
 
-/-! ### full statements that are not proved (validated by the harness only) -/
+/-! ### without the calling discipline
 
-/-- Beyond the calling discipline: UnwriteEmptyObjectMember called where the marshalers never call it — twice in a
-row, or after a rejected call — on the undisciplined `run`.  NOT DECIDED.  `run` and `runD` differ only in states
-reached by a successful UnwriteEmptyObjectMember (Length()-2 > 0, not fresh); there a second call scans the member
-written BEFORE the retracted one.  No model counterexample was found in the patterns examined: if that earlier member
-ends like an empty value, the flush after it was suppressed (avoidFlush case 3), and so were the flushes after the
-retracted member's name and value, hence the earlier member is wholly in `buf` under every schedule.  A proof needs
-the invariant to remember, for every member boundary still in `buf`, that the buffer before it is again
-"unwrite-compatible" with the whole stream (a predicate recursive in Length()/2, threaded through `MemberHead`);
-`flush_indep_full` proves the statement for every sequence the marshalers can produce. -/
-def flush_indep_undisciplined_full : Prop :=
-  ∀ (omitNL : Bool) (l₁ l₂ : List (Op × Sched)), l₁.map Prod.fst = l₂.map Prod.fst → (∀ p ∈ l₁, SaneCall p.1) →
-    (run { omitNL := omitNL } l₁).total = (run { omitNL := omitNL } l₂).total
+`run` performs UnwriteEmptyObjectMember whenever it is called (in the states where the Go function does not panic):
+twice in a row, after a rejected call, after UnwriteOnlyObjectMemberName — moments at which the marshalers never
+call it.  The shape invariant remembers, for every member boundary still in `buf`, that the buffer before it is
+again unwrite-compatible with the whole stream (`Compat`, recursive in Length()/2), so the statement holds there
+too. -/
+
+/-- `flush_indep_undisciplined_full`: for EVERY call sequence with sane token texts and every two schedules of flush
+decisions and writer behaviours, `delivered ++ buf` and the token state are the same. -/
+theorem flush_indep_undisciplined_full (omitNL : Bool) (l₁ l₂ : List (Op × Sched))
+    (hops : l₁.map Prod.fst = l₂.map Prod.fst) (hsane : ∀ p ∈ l₁, SaneCall p.1) :
+    (run { omitNL := omitNL } l₁).total = (run { omitNL := omitNL } l₂).total ∧
+    (run { omitNL := omitNL } l₁).last = (run { omitNL := omitNL } l₂).last ∧
+    (run { omitNL := omitNL } l₁).stack = (run { omitNL := omitNL } l₂).stack := by
+  have := (run_simU l₁ l₂ _ _ ⟨Sim.refl _, invS_init omitNL false, invS_init omitNL false⟩ hops hsane).sim
+  exact ⟨this.total, this.last, this.stack⟩
+
+-- non-trivial instance: `{"a":1` `,"b":null` `,"c":[]` then THREE calls of UnwriteEmptyObjectMember in a row
+-- (the third is a no-op on `"a":1`), `}` — flush wanted after every call with 2-byte short writes, versus no flush
+example :
+    let ops : List Op := [.tok .openObj [], .tok (.str [0x61]) [], .tok (.scalar [0x31]) [],
+      .tok (.str [0x62]) [], .tok (.scalar [0x6e, 0x75, 0x6c, 0x6c]) [], .tok (.str [0x63]) [], .tok .openArr [], .tok .closeArr [],
+      .unwriteEmpty, .unwriteEmpty, .unwriteEmpty, .tok .closeObj []]
+    (run {} (ops.map (fun o => (o, ⟨true, .fail 2⟩)))).total = (run {} (ops.map (fun o => (o, ⟨false, .ok⟩)))).total ∧
+    (run {} (ops.map (fun o => (o, ⟨false, .ok⟩)))).delivered = [0x7b, 0x22, 0x61, 0x22, 0x3a, 0x31, 0x7d, 0x0a] := by decide
 
 end JsonV.Props.C07
